@@ -592,8 +592,8 @@ def run(ctx):
                        "cabs/carg/log10/cexp accuracy is outside every theorem; the harness allows 1e-9 relative for them"]
     ctx.rule = ("one evaluation = one generated (object, file name / file type, format list, precisions) configuration saved and "
                 "re-loaded; distinct non-trivial = accepted configurations by (type, ports, file type, format list, z0 mode, precision)")
-    ok, res = ctx.coq_obligations(["Files/NumFmtModel.v", "Files/NumFmtProofs.v", "Files/NpdScan.v", "Files/SaveModel.v",
-                                   "Properties_C06.v"])
+    ok, res = ctx.coq_obligations(["Files/NumFmtModel.v", "Files/NumFmtProofs.v", "Files/NpdScan.v", "Files/NpdScanProofs.v",
+                                   "Files/SaveModel.v", "Files/SaveProofs.v", "Properties_C06.v"])
     broken = []
     if not ok:
         broken.append("Coq development of C06 does not build: " + getattr(ctx, "_last_coq_log", "")[-400:])
@@ -637,11 +637,13 @@ def run(ctx):
     ctx.extra["refused"] = stats["refused"]
     ctx.extra["accepted_by_filetype"] = stats["by_kind"]
     ctx.extra["violation_classes"] = dict((str(dict(k)), v) for k, v in nviol.items())
-    ctx.obligation("tie:roundtrip", not nviol and not faults, "%d violation classes" % len(nviol))
+    known = vplib.load_known()
+    unknown = [k for k in nviol if vplib.match_known(ctx.prop, dict(k), known) is None]
+    ctx.obligation("tie:roundtrip", not unknown and not faults, "%d violation classes (%d known findings)" % (len(nviol), len(nviol) - len(unknown)))
     if stats["accepted"] < n // 4:
         ctx.obligation("tie:coverage", False, "only %d of %d configurations were accepted by the saver" % (stats["accepted"], n))
     # ---- ties of the Coq models
-    c06_ties.run(ctx, H, broken)
+    c06_ties.run(ctx, H, broken, cases, results, expected_filetype)
     for b in broken:
         ctx.unproved("C06", b, "round-trip search over %d configurations" % n)
 
